@@ -3,6 +3,7 @@ package props
 import (
 	"crypto/ecdsa"
 	"crypto/rsa"
+	"crypto/sha256"
 	"crypto/x509"
 	"encoding/pem"
 	"fmt"
@@ -183,3 +184,24 @@ func sortedKeys[V any](m map[string]V) []string {
 }
 
 var _ = core.FlagDefault
+
+func rapidConst() int { return 0 }
+
+// pkcs8Fixed returns a deterministic key of the named algorithm: pooled RSA
+// key or an EC key whose scalar is derived from n.
+func pkcs8Fixed(name string, n int) []byte {
+	if isRSAName(name) {
+		ks := rsaKeys(rsaBits(name))
+		b, err := x509.MarshalPKCS8PrivateKey(ks[n%len(ks)])
+		if err != nil {
+			panic(err)
+		}
+		return b
+	}
+	c := ecref.Curves[name]
+	h := sha256.Sum256([]byte(fmt.Sprintf("%s/%d", name, n)))
+	d := new(big.Int).SetBytes(h[:])
+	d.Mod(d, new(big.Int).Sub(c.N, big.NewInt(1)))
+	d.Add(d, big.NewInt(1))
+	return buildECPKCS8(c, d, ecEnc{OuterCurve: true, Public: true})
+}
